@@ -35,11 +35,23 @@ def observe(binp, src, work, case, flags, facts, tag, extra_args=()):
     root = os.path.join(work, "%s-%s" % (case["dir"], tag))
     os.makedirs(root)
     shutil.copy(os.path.join(src, "go.mod"), root)
-    pkg = os.path.join(root, case["dir"])
-    shutil.copytree(os.path.join(src, case["dir"]), pkg, symlinks=True)
-    args = list(flags) + ["./" + case["dir"]] + list(extra_args)
+    shutil.copytree(os.path.join(src, case["dir"]), os.path.join(root, case["dir"]), symlinks=True)
+    # the package may live in a sub-directory of the case (its siblings are then part of the watched tree)
+    pkgrel = os.path.join(case["dir"], case.get("pkg") or "").rstrip("/")
+    pkg = os.path.join(root, pkgrel)
+    for d, _, fs in os.walk(os.path.join(root, case["dir"])):  # //line directives with absolute targets
+        for f in fs:
+            if f.endswith(".go"):
+                fp = os.path.join(d, f)
+                txt = open(fp, "rb").read()
+                if b"ABSROOT" in txt:
+                    mode = os.stat(fp).st_mode
+                    os.chmod(fp, 0o644)
+                    open(fp, "wb").write(txt.replace(b"ABSROOT", root.encode()))
+                    os.chmod(fp, mode)
+    args = list(flags) + ["./" + pkgrel] + list(extra_args)
     if "uptodate-second-run" in case["what"]:
-        runs.goderive(binp, root, ["./" + case["dir"]], timeout=60)
+        runs.goderive(binp, root, ["./" + pkgrel], timeout=60)
     orig = os.path.join(work, "%s-%s-orig" % (case["dir"], tag))
     shutil.copytree(pkg, orig, symlinks=True)
     before = runs.snapshot(root)
@@ -64,7 +76,7 @@ def observe(binp, src, work, case, flags, facts, tag, extra_args=()):
     seen = collections.Counter()
     may_rename = bool(flags)
     for fn, j in sorted(files.items()):
-        rel = os.path.join(case["dir"], fn)
+        rel = os.path.join(pkgrel, fn)
         if not j["changed"]:
             continue
         res["rewritten"].append(fn)
@@ -93,9 +105,9 @@ def observe(binp, src, work, case, flags, facts, tag, extra_args=()):
         problems.append(("C10/renames-vs-log", "identifiers changed in the files %s differ from goderive's own log lines %s" % (
             dict(seen), dict(logged))))
     # ---- snapshot: everything else must be untouched
-    allowed_user = set(os.path.join(case["dir"], f) for f in res["rewritten"]) if may_rename else set()
+    allowed_user = set(os.path.join(pkgrel, f) for f in res["rewritten"]) if may_rename else set()
     for kind, path in diff:
-        if path == os.path.join(case["dir"], DERIVED):
+        if path == os.path.join(pkgrel, DERIVED):
             res["effects"].append(kind + ":" + DERIVED)
             continue
         if kind == "modified" and path in allowed_user:
@@ -103,8 +115,8 @@ def observe(binp, src, work, case, flags, facts, tag, extra_args=()):
         if kind == "chmod" and path in allowed_user:
             problems.append(("C10/mode-changed", "mode of %s changed" % path))
             continue
-        problems.append(("C10/unmodelled-change", "%s %s (only %s may be created, modified or deleted%s)" % (
-            kind, path, DERIVED, "" if not may_rename else " and files holding a renamed call rewritten")))
+        problems.append(("C10/unmodelled-change", "%s %s (only %s/%s may be created, modified or deleted%s)" % (
+            kind, path, pkgrel, DERIVED, "" if not may_rename else " and files of that package holding a renamed call rewritten")))
     # ---- strace: every mutating syscall inside the tree is a modelled effect with the fact's flags
     want_flags = set(x.replace("os.", "") for x in facts.get("rewriteOpenFlags", []))
     muts = runs.strace_mutations(log, root)
@@ -112,7 +124,7 @@ def observe(binp, src, work, case, flags, facts, tag, extra_args=()):
     res["syscalls_inside"] = len(inside)
     for sc, pth, fl, ok in inside:
         rel = os.path.relpath(pth, root)
-        if rel == os.path.join(case["dir"], DERIVED):
+        if rel == os.path.join(pkgrel, DERIVED):
             if sc in ("open", "openat") and norm_flags(fl) == {"O_RDWR", "O_CREAT", "O_TRUNC"}:
                 continue  # os.Create in (*pkg).Print
             if sc in ("unlink", "unlinkat"):
@@ -123,21 +135,23 @@ def observe(binp, src, work, case, flags, facts, tag, extra_args=()):
             if norm_flags(fl) != want_flags:
                 problems.append(("C10/open-flags-differ-from-fact", "open(%s, %s) but Facts.rewriteOpenFlags = %s" % (rel, fl, sorted(want_flags))))
             continue
-        if sc in ("open", "openat") and may_rename and rel.endswith(".go") and os.path.dirname(rel) == case["dir"] and not ok:
+        if sc in ("open", "openat") and may_rename and rel.endswith(".go") and os.path.dirname(rel) == pkgrel and not ok:
             continue  # failed attempt, nothing changed
         problems.append(("C10/unmodelled-syscall", "%s(%s%s) inside the package tree is not one of the modelled effects" % (sc, rel, ", " + fl if fl else "")))
     res["problems"] = problems
     res["out"] = r["out"][-600:]
     if problems:
         res["replay"] = {"files": runs.read_tree(os.path.join(src, case["dir"])), "cmd": "goderive " + " ".join(args),
-                         "case": case["dir"], "after": runs.read_tree(pkg)}
+                         "case": case["dir"], "pkg": case.get("pkg") or "", "after": runs.read_tree(os.path.join(root, case["dir"]))}
     return res
 
 
 def run(rep):
     rep.cov["rule"] = ("fsobserve corpus (outcomes success / generator error / load error; rename pool: -dedup and -autoname "
                        "renamings to shorter, equal and longer names, gofmt-formatted and unformatted files, trailing comments, "
-                       "several files, bystander files and sub-directories) x the four flag combinations; one evaluation = one "
+                       "several files incl. in-package test files sorting between the others, second-round renames, //line directives with relative / absolute "
+                       "targets in sibling directories (the whole module copy is watched), parenthesised callees and other AST-lossy constructs, external test "
+                       "packages, bystander files and sub-directories) x the four flag combinations; one evaluation = one "
                        "observed run (snapshot diff + strace + rewrite oracle); distinct non-trivial = distinct (case, flags) whose "
                        "run performed at least one file-system effect inside the package tree")
     rep.assumptions += ["go/format and go/parser are trusted (the oracle uses them independently of goderive: positions from its own parse of the original text)",
@@ -201,8 +215,8 @@ def replay(rep, path):
     with runs.Scratch("c10r") as sd:
         os.makedirs(os.path.join(sd, r.get("case", "k")))
         open(os.path.join(sd, "go.mod"), "w").write("module fsx\n\ngo 1.24\n")
-        runs.write_tree(os.path.join(sd, r.get("case", "k")), r.get("files", {}))
-        args = r.get("flags", "").split() + ["./" + r.get("case", "k")]
+        runs.write_tree(os.path.join(sd, r.get("case", "k")), {k: v.replace("ABSROOT", sd) for k, v in r.get("files", {}).items()})
+        args = r.get("flags", "").split() + ["./" + os.path.join(r.get("case", "k"), r.get("pkg") or "").rstrip("/")]
         out = runs.goderive(binp, sd, args, timeout=60)
         print("replay: goderive %s -> rc=%s\n%s" % (" ".join(args), out["rc"], out["out"][-1500:]))
         for fn, text in sorted(runs.read_tree(os.path.join(sd, r.get("case", "k"))).items()):
